@@ -219,6 +219,9 @@ class SymExec:
         if cname.startswith(('stdvec_', 'stdlist_', 'stdmap_')):
             self.B.note('container model call %s ignored in back end B (containers are back end A\'s business)' % cname)
             return None
+        if cname in self.B.overrides:
+            self.B.note('call to %s answered by the spec-level contract registered for it (assumed here, enforced elsewhere)' % cname)
+            return self.B.overrides[cname](args)
         fn = self.prog.functions.get(cname)
         if fn is None:
             raise ExtractError('emit_smt: function %s not extracted' % cname)
@@ -277,7 +280,7 @@ class Frame:
         def cp(v):
             if isinstance(v, list): return [cp(x) for x in v]
             if isinstance(v, dict): return {k: cp(x) for k, x in v.items()}
-            return v
+            return v      # scalars (terms) and Cells (pointers, kept by identity)
         return {k: (c, cp(c.v)) for k, c in self.all_cells().items()}
 
     def all_cells(self):
@@ -326,12 +329,12 @@ class Frame:
             after_t = self.snapshot()
             # restore, run else
             for cid, (cell, val) in before.items():
-                cell.v = val
+                self.set_in_place(cell, val)
             pe = self.block(s[3], land(pc, lnot(c)))
-            # merge cells
+            # merge cells (in place: aggregates are shared by reference with the caller)
             for cid, (cell, tval) in after_t.items():
                 if cid in before:
-                    cell.v = self.merge(c, tval, cell.v)
+                    self.set_in_place(cell, self.merge(c, tval, cell.v))
             # variables declared inside branches go out of scope
             return lor(pt, pe) if (pt != land(pc, c) or pe != land(pc, lnot(c))) else pc
         if k == 'return':
@@ -364,6 +367,27 @@ class Frame:
         if k in ('lock', 'ghost'):
             return pc
         raise ExtractError('emit_smt: statement kind %r' % (k,))
+
+    def set_in_place(self, cell, val):
+        def into(dst, src):
+            if isinstance(dst, dict) and isinstance(src, dict):
+                for k in src:
+                    if isinstance(dst.get(k), (dict, list)) and isinstance(src[k], (dict, list)):
+                        into(dst[k], src[k])
+                    else:
+                        dst[k] = src[k]
+            elif isinstance(dst, list) and isinstance(src, list) and len(dst) == len(src):
+                for i in range(len(src)):
+                    if isinstance(dst[i], (dict, list)) and isinstance(src[i], (dict, list)):
+                        into(dst[i], src[i])
+                    else:
+                        dst[i] = src[i]
+            else:
+                raise ExtractError('emit_smt: shape change of an aggregate across branches')
+        if isinstance(cell.v, (dict, list)) and isinstance(val, (dict, list)):
+            into(cell.v, val)
+        else:
+            cell.v = val
 
     def has_cell(self, v):
         if isinstance(v, Cell): return True
@@ -572,6 +596,7 @@ class Builder:
         self.loop_handler = self.default_loop
         self.loop_records = []
         self.facts = []
+        self.overrides = {}     # cname -> python function(args) standing for a callee's contract
         self.side_conditions = []
         self.solves = {}
         self.symbolic_loop = None     # handler for `for` loops whose bound is not a compile-time constant
